@@ -154,6 +154,10 @@ def _explore(ob, twin, exclude=None, params=None, timeout=None):
     def body(**vals):
         ctx = Ctx(route="inject", twin=twin, exclude=exclude)
         holder["ctx"] = ctx
+        for region in (exclude or []):
+            # a known finding's input region is assumed away so that a different violation is still found
+            if eval(region, {"__builtins__": {"abs": abs, "len": len, "sum": sum, "min": min, "max": max}}, dict(vals)):
+                raise Skip()
         try:
             ok = h(params, vals, ctx)
         except Witness:
@@ -284,6 +288,10 @@ def _work(ob: Ob, known: List[Dict[str, Any]], conn):
                     continue  # re-run with the known region excluded
                 res["status"] = "violated"
                 res["cex"] = cex
+                break
+            if exclude and cv.status == "unknown" and cv.detail.startswith("vacuous"):
+                res["status"] = "confirmed"  # the known finding's region covers the whole obligation
+                res["messages"].append("nothing left to explore outside the known finding's region")
                 break
             # unknown
             if attempts == 1 and cv.status == "unknown" and "NotDeterministic" not in cv.detail:
